@@ -56,6 +56,22 @@ func init() {
 	}
 }
 
+// tkQuotePool: literals whose content starts or ends with an escaped quote, is one quote, is empty; a lone
+// quote, three and five quotes (unterminated under the doubled-quote convention); an empty literal as the
+// last token of the input - for both quote characters, bare and in the context of each tokenizer.
+func tkQuotePool() []string {
+	var out []string
+	for _, q := range []string{"'", "\""} {
+		a := func(parts ...string) string { return strings.ReplaceAll(strings.Join(parts, ""), "Q", q) }
+		lits := []string{a("QQQaQ"), a("QaQQQ"), a("QQQaQQQ"), a("QQQQ"), a("QQQ"), a("QQQQQ"), a("QQQQQQ"), a("QaQQ"), a("QQQa"), a("QaQQbQ"), a("QQ"), a("Q Q")}
+		for i, l := range lits {
+			out = append(out, l, []string{"a = ", "{{ f ", "1,"}[i%3]+l)
+		}
+		out = append(out, a("QQQxQ)+(QyQQQ"), a("a,QQ\r\nQQ,QQ"), a("1,2\r\n3,QQ"), a("QQQaQ,QbQQQ\nQQQQ,QQ"), a("x {{ f QQ"), a("{{#a QQ}}QQ{{/a}}QQ"), a("{{QQQaQ}}"), a("QQ QQ"), a("QQ+QQ"))
+	}
+	return out
+}
+
 type tkSpan struct {
 	typ, val  string
 	line, col int64
@@ -182,7 +198,7 @@ func tkCheckBase(who, s string, toks []tkTok, v *tkVerdict, path string) {
 }
 
 // tkExpect: the option-free stream with whole tokens dropped or rewritten (statement of C15).
-func tkExpect(base []tkTok, fromQuote []bool, decoded []string, mask int) []tkTok {
+func tkExpect(base []tkTok, fromQuote []bool, decoded [][]string, alt int, mask int) []tkTok {
 	on := func(name string) bool {
 		for i, o := range tkOptions {
 			if o == name {
@@ -198,7 +214,7 @@ func tkExpect(base []tkTok, fromQuote []bool, decoded []string, mask int) []tkTo
 			continue
 		}
 		if fromQuote[i] && on("DecodeStrings") {
-			t.val = decoded[i]
+			t.val = decoded[i][min(alt, len(decoded[i])-1)]
 		}
 		if t.typ == "Comment" && on("SkipComments") {
 			continue
@@ -221,16 +237,51 @@ func tkExpect(base []tkTok, fromQuote []bool, decoded []string, mask int) []tkTo
 	return out
 }
 
-// quoteInfo: which base tokens were read by the quote state, and their decoded values (through the
-// tokenizer's own GetCharacterState / QuoteState / DecodeString).
-func (h *tkHarness) quoteInfo(base []tkTok) (from []bool, dec []string, why string) {
+// tkDecodeModel: the decoded value of a token read by the quote state, written from the statements
+// (C09: "a doubled quote decodes to one quote"; C14: the encoded form - the text between a pair of
+// quote characters, for the expression and CSV states with every quote inside doubled - is read back
+// as one token whose decoded value is the original string; the generic state, also used for
+// templates, ends a literal at the next occurrence of its opening quote and knows no escape).
+// A terminated literal therefore decodes to its content: the enclosing pair removed - that one pair
+// only - and every doubled quote inside standing for one. For a literal that runs into the end of
+// the input no closing quote exists; the statements only say that decoding does not fail, so the raw
+// text and the content read so far are both accepted (first result = the value used in reports).
+func tkDecodeModel(kind, raw string) []string {
+	rs := []rune(raw)
+	if len(rs) == 0 {
+		return []string{raw}
+	}
+	q := rs[0]
+	doubled := kind == "expression" || kind == "csv"
+	var content []rune
+	for i := 1; i < len(rs); i++ {
+		if rs[i] != q {
+			content = append(content, rs[i])
+			continue
+		}
+		if doubled && i+1 < len(rs) && rs[i+1] == q {
+			content = append(content, q)
+			i++
+			continue
+		}
+		if i == len(rs)-1 {
+			return []string{string(content)} // the closing quote
+		}
+		return []string{raw} // a quote in the middle of a token of the plain convention: not a literal of this state
+	}
+	return []string{raw, string(content)}
+}
+
+// quoteInfo: which base tokens were read by the quote state (the state the tokenizer's own
+// GetCharacterState names for the first character), and their decoded values by tkDecodeModel.
+func (h *tkHarness) quoteInfo(kind string, base []tkTok) (from []bool, dec [][]string, why string) {
 	qs, out := h.call("QuoteState")
 	if out.kind != "ok" {
 		return nil, nil, "QuoteState: " + out.why
 	}
 	for _, t := range base {
 		isQ := false
-		d := t.val
+		d := []string{t.val}
 		// (text outside the tags of a template is read by the special state whatever it starts with)
 		if t.val != "" && t.typ != "Special" {
 			first := []rune(t.val)[0]
@@ -244,23 +295,7 @@ func (h *tkHarness) quoteInfo(base []tkTok) (from []bool, dec []string, why stri
 				}
 			}
 			if isQ {
-				qi, ok := qs.(mIface)
-				if !ok {
-					return nil, nil, "the quote state is " + mRender(qs)
-				}
-				f := h.c.lookupMethod(qi.t, "DecodeString")
-				if f == nil {
-					return nil, nil, "DecodeString not found"
-				}
-				r, o := h.m.Call(f, qi.v, t.val, int64(first))
-				if o.kind != "ok" {
-					return nil, nil, "DecodeString: " + o.why
-				}
-				ds, ok := r.(string)
-				if !ok {
-					return nil, nil, "DecodeString returns " + mRender(r)
-				}
-				d = ds
+				d = tkDecodeModel(kind, t.val)
 			}
 		}
 		from = append(from, isQ)
@@ -507,7 +542,7 @@ func (c *Ctx) tkRun(kind, part string) *tkVerdict {
 	}
 	maxLen := 3
 	optLen := 2
-	masks := []int{1, 2, 4, 8, 16, 32, 64, 127, 2 | 4, 2 | 16, 4 | 2 | 8, 64 | 32, 1 | 8, 2 | 4 | 16 | 64}
+	masks := []int{1, 2, 4, 8, 16, 32, 64, 127, 2 | 4, 2 | 16, 4 | 2 | 8, 64 | 32, 1 | 8, 2 | 4 | 16 | 64, 8 | 64}
 	if c.Tier == "thorough" {
 		maxLen = 4
 		masks = nil
@@ -518,6 +553,9 @@ func (c *Ctx) tkRun(kind, part string) *tkVerdict {
 	strs := tkStrings(maxLen)
 	nBounded := len(strs)
 	strs = append(strs, tkPool...)
+	if part != "reuse" {
+		strs = append(strs, tkQuotePool()...)
+	}
 	total := newTkVerdict()
 	nw := 12
 	var wg sync.WaitGroup
@@ -588,25 +626,54 @@ func (c *Ctx) tkRun(kind, part string) *tkVerdict {
 				}
 				// options: bounded strings up to optLen and the pool
 				if inOptions && part == "options" {
-					from, dec, why := h.quoteInfo(r.toks)
+					from, dec, why := h.quoteInfo(kind, r.toks)
 					if why != "" {
 						v.note("options", "", show+": "+why)
 						continue
 					}
-					for _, mask := range masks {
+					// the string-list entry points under the same options: all inputs in the thorough tier, here the
+					// inputs with a token of the quote state (a decoded value may be empty) and a sample of the others
+					viaStrings := c.Tier == "thorough" || i%5 == 0
+					for _, q := range from {
+						viaStrings = viaStrings || (q && i >= nBounded)
+					}
+					for mi, mask := range masks {
 						if why := h.setOptions(mask); why != "" {
 							v.note("options", "", why)
 							break
 						}
 						got := h.tokenize(s)
-						want := tkExpect(r.toks, from, dec, mask)
+						want := tkExpect(r.toks, from, dec, 0, mask)
 						switch {
 						case got.kind == "opaque":
 							v.note("options", "", show+" with "+optNames(mask)+": "+got.why)
 						case got.kind == "panic":
 							v.note("options", show+" with "+optNames(mask)+" panics: "+got.why, "")
-						case renderToks(got.toks) != renderToks(want):
+						case renderToks(got.toks) != renderToks(want) && renderToks(got.toks) != renderToks(tkExpect(r.toks, from, dec, 1, mask)):
 							v.note("options", fmt.Sprintf("%s with %s gives [%s]; the option-free stream [%s] with whole tokens dropped or rewritten, at their own positions, is [%s]", show, optNames(mask), renderToks(got.toks), renderToks(r.toks), renderToks(want)), "")
+						default:
+							v.note("options", "", "")
+						}
+						if got.kind != "ok" || !viaStrings {
+							continue
+						}
+						// the same stream as a list of values: every token of the optioned stream, nothing else
+						entry := tkStringEntries[(mi+i)%len(tkStringEntries)]
+						vals, k, why := h.stringsVia(entry, s)
+						valuesOf := func(ts []tkTok) string {
+							vs := []string{}
+							for _, t := range ts {
+								vs = append(vs, t.val)
+							}
+							return fmt.Sprintf("%q", vs)
+						}
+						switch {
+						case k == "panic":
+							v.note("options", fmt.Sprintf("%s with %s: %s panics: %s", show, optNames(mask), entry, why), "")
+						case k != "ok":
+							v.note("options", "", fmt.Sprintf("%s with %s: %s: %s", show, optNames(mask), entry, why))
+						case fmt.Sprintf("%q", vals) != valuesOf(want) && fmt.Sprintf("%q", vals) != valuesOf(tkExpect(r.toks, from, dec, 1, mask)):
+							v.note("options", fmt.Sprintf("%s with %s: %s gives the values %q; the option-free stream [%s] with whole tokens dropped or rewritten has the values %s (TokenizeBuffer under the same options gives %s)", show, optNames(mask), entry, vals, renderToks(r.toks), valuesOf(want), valuesOf(got.toks)), "")
 						default:
 							v.note("options", "", "")
 						}
@@ -679,6 +746,26 @@ func (c *Ctx) tkRun(kind, part string) *tkVerdict {
 						v.note("reuse", "", why)
 					case got != fresh[s1] && fresh[s1] != "":
 						v.note("reuse", fmt.Sprintf("%s tokenizer on %q pulled with %d HasNextToken queries before each NextToken gives [%s]; TokenizeBuffer gives [%s]", kind, s1, polls, got, fresh[s1]), "")
+					default:
+						v.note("reuse", "", "")
+					}
+				}
+				// what was produced for an input is not changed by what the instance processes later: the token
+				// list handed out for s1 still has the same tokens after two more inputs were tokenized
+				for ei, entry := range []string{"TokenizeBuffer", "TokenizeStream"} {
+					raw, r1 := h.tokenizeVia(entry, s1)
+					if r1.kind != "ok" || raw == nil {
+						continue
+					}
+					s2, s3 := pool[(i+5+ei)%len(pool)], pool[(i+13+2*ei)%len(pool)]
+					h.tokenizeVia(entry, s2)
+					h.tokenize(s3)
+					again, why := h.readTokens(raw)
+					switch {
+					case why != "":
+						v.note("reuse", "", fmt.Sprintf("%s tokenizer: reading the token list of %q again: %s", kind, s1, why))
+					case renderToks(again) != renderToks(r1.toks):
+						v.note("reuse", fmt.Sprintf("%s tokenizer: the token list %s returned for %q was [%s]; after the same instance tokenized %q and %q that list reads [%s]: results handed out earlier are overwritten by later calls", kind, entry, s1, renderToks(r1.toks), s2, s3, renderToks(again)), "")
 					default:
 						v.note("reuse", "", "")
 					}
